@@ -16,6 +16,7 @@ import (
 	"crypto/hmac"
 	"crypto/rand"
 	"crypto/rsa"
+	"crypto/sha1"
 	"crypto/sha256"
 	"crypto/x509"
 	"encoding/base64"
@@ -558,6 +559,7 @@ type vEnvCfg struct {
 	oidc  bool // OIDC provider against the in-memory IdP (otherwise the default test provider options)
 	mod   func(*options.Options)
 	post  func(*vEnv) // after construction
+	optional bool     // validation failure is not fatal
 }
 
 var vTmpDir string
@@ -599,6 +601,12 @@ func vOIDCOptions(o *options.Options) {
 	pr.OIDCConfig.AudienceClaims = []string{"aud"}
 }
 
+// vTryNewEnv is vNewEnv for configurations that validation may legitimately reject (nil then).
+func vTryNewEnv(t *testing.T, c vEnvCfg) *vEnv {
+	c.optional = true
+	return vNewEnv(t, c)
+}
+
 func vNewEnv(t *testing.T, c vEnvCfg) *vEnv {
 	idp := vInstallIdP()
 	o := baseTestOptions()
@@ -612,6 +620,9 @@ func vNewEnv(t *testing.T, c vEnvCfg) *vEnv {
 		c.mod(o)
 	}
 	if err := validation.Validate(o); err != nil {
+		if c.optional {
+			return nil
+		}
 		t.Fatalf("options do not validate: %v", err)
 	}
 	p, err := NewOAuthProxy(o, NewValidator(o.EmailDomains, o.AuthenticatedEmailsFile))
@@ -874,4 +885,9 @@ func vBigToken(nonce string) func(url.Values) (int, string, string, error) {
 		id := vJWT(vKeyRSA, "RS256", vClaims("user@example.com", ex))
 		return 200, "application/json", vTokenJSON(id, "at-"+strings.Repeat("aB3-", 700), "rt-big", 3600), nil
 	}
+}
+
+func vSHA1(b []byte) []byte {
+	h := sha1.Sum(b)
+	return h[:]
 }
